@@ -124,6 +124,13 @@ func execC24(r *Run) {
 		} else {
 			cl.send(s.S, seq, body)
 		}
+		if allowed && s.S != "handshake" && s.S != "auth" {
+			// an accepted command may run for seconds of fake time (a key operation holds the
+			// key manager's lock until its query times out): let it finish, or the next one,
+			// sent on a new connection, would wait in that real mutex and stall the fake
+			// clock (DESIGN 10.1, the synctest/mutex rule)
+			c.Advance(15 * time.Second)
+		}
 		recs := cl.take(&cursor)
 		after := as.snapshot()
 		r.NonTrivial = true
